@@ -184,7 +184,8 @@ EvalSeq(es, i, st) ==
 
 \* path segments: [t |-> "k", v |-> name] | [t |-> "i", v |-> index] | [t |-> "p", v |-> segs]
 EvalPath(segs, i, obj, st) ==
-  IF i > Len(segs) THEN obj
+  IF IsErr(obj) THEN obj
+  ELSE IF i > Len(segs) THEN obj
   ELSE LET s == segs[i]
            key == CASE s.t = "k" -> Str(s.v)
                     [] s.t = "i" -> IntV(s.v)
@@ -298,7 +299,9 @@ ExecFor(n, items, i, f, st) ==
 
 ExecNode(n, st) ==
   CASE n.k = "text" -> Write(st, TrimText(n.v, n.lm, n.rm, st.cfg))
-    [] n.k = "raw"  -> Write(st, n.v)
+    \* the markers inside `raw -%}` / `{%- endraw` trim the raw text itself
+    \* (RawTag.inner_whitespace_control; follows impl, docs are silent)
+    [] n.k = "raw"  -> Write(st, TrimText(n.v, n.wc[2], n.wc[3], st.cfg))
     [] n.k = "comment" -> st
     [] n.k \in {"out", "echo"} ->
          LET v == Eval(n.e, st) IN
